@@ -272,9 +272,10 @@ def rand_collection(rng, kind, size_hint=None):
     fl_pool = rng.sample(sorted(FLUENTS), rng.choice([1, 2, 2, 3]))
     if rng.random() < 0.7 and not any(FLUENTS[f][1] in ("int", "real") for f in fl_pool):
         fl_pool[0] = rng.choice(["x", "y", "z", "w_l1"])
-    if rng.random() < 0.15:      # the real-typed fluent: int and real constants meet
-        fl_pool = ["y"] + [f for f in fl_pool if f != "y"][:1]
     pool = {"ints": rng.sample([0, 1, 2, -3, 7, 2 ** 53 + 1, 10 ** 30], 2)}
+    if rng.random() < 0.15:      # the real-typed fluent: int and real constants of few numbers meet
+        fl_pool = ["y"] + [f for f in fl_pool if f != "y"][:1]
+        pool["ints"] = pool["ints"][:rng.choice([1, 2])]
     n = size_hint or rng.choice([1, 2, 3, 3, 4, 4, 4, 5, 5, 6, 7, 8])
     ops = []
     sims = {t: 0 for t in timings}
@@ -308,7 +309,7 @@ def mk_case(kind, timings, ops):
 
 
 def cases(rng, tier):
-    n_coll = 600 if tier == "quick" else 12000
+    n_coll = 600 if tier == "quick" else 6000
     for _ in range(n_coll):
         kind = rng.choice(["ia", "ia", "ev", "da", "da", "pb"])
         timings, ops = rand_collection(rng, kind)
